@@ -162,6 +162,12 @@ fn get_global_info(root: &Node<'_>) -> GlobalInfo {
             }
         }
         given.extend(number_names);
+
+        // two different infosets of one player with the same name would be merged
+        let unique_names: HashSet<&String> = given.values().collect();
+        if unique_names.len() != given.len() {
+            panic!("two different infosets of the same player had the same name : https://github.com/erikbrinkman/cfr#duplicate-infosets");
+        }
     }
 
     // go through terminal payoffs to determine value of constant sum
